@@ -250,6 +250,12 @@ func (h *SH) Sub(ctx context.Context, tok int, n int) (<-chan int, error) {
 	return out, nil
 }
 
+// Put takes a payload of any size and reports its length.
+func (h *SH) Put(ctx context.Context, tok int, payload string) (int, error) {
+	h.C.enter(ctx, "Put", tok)
+	return len(payload), nil
+}
+
 // SubBoth is Sub declared with a bidirectional channel type (`chan int`, as a handler written without the
 // arrow would be): still a subscription in every respect.
 func (h *SH) SubBoth(ctx context.Context, tok int, n int) (chan int, error) {
@@ -472,6 +478,7 @@ type CL struct {
 	CallBackBlock func(context.Context, int) (int, error)
 	SubOdd        func(context.Context, int, int) (<-chan float64, error)
 	SubBoth       func(context.Context, int, int) (<-chan int, error)
+	Put           func(context.Context, int, string) (int, error)
 	Boom          func(int) `notify:"true"`
 	Missing       func(int) `notify:"true"` // the server has no such method
 	NotifyAbsent  func(context.Context, int) (int, error)
